@@ -369,6 +369,23 @@ def canonicalise(tree: ast.Module, rel: str = None) -> ast.Module:
             nm_ = st.targets[0].id
             if counts.get(nm_) == 1 and not (nm_.startswith("__") and nm_.endswith("__")) and nm_.upper() == nm_ and nm_.lstrip("_")[:1].isalpha():
                 scalars[nm_] = st.value.value
+    # ... and names bound once to an expression over such names and literals (`_ALL = _A + _B`)
+    if scalars:
+        from .miniev import CannotEval, ev
+
+        for _ in range(2):
+            for st in tree.body:
+                if isinstance(st, ast.Assign) and len(st.targets) == 1 and isinstance(st.targets[0], ast.Name) and not isinstance(st.value, ast.Constant) \
+                        and isinstance(st.value, (ast.BinOp, ast.Name)):
+                    nm_ = st.targets[0].id
+                    if nm_ in scalars or counts.get(nm_) != 1 or nm_.upper() != nm_ or not nm_.lstrip("_")[:1].isalpha():
+                        continue
+                    try:
+                        v_ = ev(st.value, scalars)
+                    except (CannotEval, Exception):
+                        continue
+                    if isinstance(v_, (str, int, float)) and not isinstance(v_, bool):
+                        scalars[nm_] = v_
     if scalars:
         class _Named(ast.NodeTransformer):
             def visit_Name(self, n):
